@@ -40,7 +40,17 @@ func checkCompatString(c *Ctx, cs *h.Case, b []byte) {
 		}
 	})
 	c.Guarded(cs, "StdLibCompatibleStringBytes", func() {
-		for _, dst := range [][]byte{nil, make([]byte, 0, 1), append(make([]byte, 0, 4), 'p', 'q'), append(make([]byte, 0, 64), "prefix"...)} {
+		dsts := [][]byte{nil, make([]byte, 0, 1), append(make([]byte, 0, 4), 'p', 'q'), append(make([]byte, 0, 64), "prefix"...)}
+		if len(b) > 0 && b[0] >= 0x80 && b[0] <= 0xbf {
+			// the source begins with continuation bytes: destinations that END in an incomplete sequence
+			// which those bytes would complete - the existing contents are not the function's to
+			// re-interpret (seeded change C17r7-m1: utf8.Valid over destination AND appended bytes)
+			for _, tail := range []string{"caf\xc3", "\xe2\x82", "x\xe2", "\xf0\x9f\x98", "\xf0\x9f", "y\xf0"} {
+				dsts = append(dsts, append(make([]byte, 0, 8), tail...), append(make([]byte, 0, 64), tail...))
+			}
+			c.Rec.C("sources_beginning_with_continuation_bytes_appended_to_incomplete_tails")
+		}
+		for _, dst := range dsts {
 			prefix := append([]byte(nil), dst...)
 			arg := append([]byte(nil), b...)
 			got := rjson.StdLibCompatibleStringBytes(arg, dst)
